@@ -212,10 +212,17 @@ def run() -> int:
         rep.add_violation(Violation(PROP, ["native"], f"LV-DAG round trip of nodes={b['nodes']} di={b['di']} bi={b['bi']} gives {b['observed']} (native validation corpus)", {"property": PROP, **b}))
     rep.nontrivial.add("native-corpus")
     rep.extra.update({"states": max(states, 1), "transitions": max(rep.obligations, 1), "traces_validated_against_impl": cnt})
+    from .. import history_runs
+
+    history_runs.run(rep, PROP)
     return rep.finish()
 
 
 def replay(payload: dict) -> int:
+    if payload.get("kind") == "history":
+        from .. import history_runs
+
+        return history_runs.replay(PROP, payload)
     from y0.dsl import Variable as V
 
     if payload.get("api"):
